@@ -106,6 +106,35 @@ pub open spec fn auth_consistent(a: AuthorisationNode) -> bool {
             r is Ok ==> auth_consistent(*self),
 //@ end
 
+
+pub open spec fn dest_in_auths(e: Edge, nodes: Seq<AuthorisationNode>) -> bool { exists|j: int| 0 <= j < nodes.len() && (#[trigger] nodes[j]).node.id@ =~= e.dest@ && auth_consistent(nodes[j]) }
+pub open spec fn room_consistent(n: RoomNode) -> bool {
+    edges_point_into_users(n.admin_edges@, n.node.id, n.admin_nodes@)
+    && n.auth_edges@.len() == n.auth_nodes@.len()
+    && forall|i: int| 0 <= i < n.auth_edges@.len() ==> (#[trigger] n.auth_edges@[i]).src@ =~= n.node.id@ && dest_in_auths(n.auth_edges@[i], n.auth_nodes@)
+}
+//@ extract src/database/room_node.rs :: impl RoomNode / fn check_consistency
+//@ result r
+//@ attr #[verifier::loop_isolation(false)]
+//@ rewrite E16 "\"[A-Za-z ]+\"\.to_string\(\)" => "fmt_stub()" x*
+//@ insert body-start
+        proof { assert(<[u8; 16] as PartialEqSpec<[u8; 16]>>::obeys_eq_spec()); }
+//@ closure "|user|" ret bool
+        ensures b == (user.node.id@ =~= admin_edge.dest@)
+//@ closure "|auth|" ret bool
+        ensures b == (auth.node.id@ =~= auth_edge.dest@)
+//@ loop "for admin_edge in &self.admin_edges" iter it
+            invariant forall|i: int| 0 <= i < it.index@ ==> (#[trigger] self.admin_edges@[i]).src@ =~= self.node.id@ && dest_in_users(self.admin_edges@[i], self.admin_nodes@),
+//@ insert before-stmt "if self.auth_edges.len() != self.auth_nodes.len()"
+        assert(edges_point_into_users(self.admin_edges@, self.node.id, self.admin_nodes@));
+//@ loop "for auth_edge in &self.auth_edges" iter it
+            invariant forall|i: int| 0 <= i < it.index@ ==> (#[trigger] self.auth_edges@[i]).src@ =~= self.node.id@ && dest_in_auths(self.auth_edges@[i], self.auth_nodes@),
+//@ spec
+        ensures
+            // [room_shape_consistent] accepted only if the admin list and the group list each have as many references as entries, every reference starts at the room row and ends at an entry of the matching list, and every referenced group is itself consistent
+            r is Ok ==> room_consistent(*self),
+//@ end
+
 // ---------------------------------------------------------------- entitlement of the entries of a room new to the receiver
 pub open spec fn users_by_admin(room: Room, s: Seq<UserNode>) -> bool {
     forall|i: int| 0 <= i < s.len() ==> spec_is_admin(room, (#[trigger] s[i]).node.verifying_key, s[i].node.mdate)
